@@ -417,46 +417,49 @@ fn str_prefix6(ost: Option<String>) -> Result<Option<Prefix6>, Error> {
 
 fn str_duration(ost: Option<String>) -> Result<Option<std::time::Duration>, Error> {
     ost.map(|st| {
-        let mut num = None;
-        let mut ret = Default::default();
+        let too_large = || Error::InvalidConfig(format!("Duration '{}' is too large", st));
+        let mut num: Option<u64> = None;
+        let mut ret: u64 = 0;
         for c in st.chars() {
-            match c {
+            let unit = match c {
                 '0'..='9' => {
-                    if let Some(n) = num {
-                        num = Some(n * 10 + c as u64 - '0' as u64);
-                    } else {
-                        num = Some(c as u64 - '0' as u64);
-                    }
+                    let digit = c as u64 - '0' as u64;
+                    num = Some(
+                        num.unwrap_or(0)
+                            .checked_mul(10)
+                            .and_then(|n| n.checked_add(digit))
+                            .ok_or_else(too_large)?,
+                    );
+                    None
                 }
-                's' => {
-                    ret += std::time::Duration::from_secs(num.take().unwrap());
-                }
-                'm' => {
-                    ret += std::time::Duration::from_secs(num.take().unwrap() * 60);
-                }
-                'h' => {
-                    ret += std::time::Duration::from_secs(num.take().unwrap() * 3600);
-                }
-                'd' => {
-                    ret += std::time::Duration::from_secs(num.take().unwrap() * 86400);
-                }
-                'w' => {
-                    ret += std::time::Duration::from_secs(num.take().unwrap() * 7 * 86400);
-                }
-                x if x.is_whitespace() => (),
-                '_' => (),
+                's' => Some(1),
+                'm' => Some(60),
+                'h' => Some(3600),
+                'd' => Some(86400),
+                'w' => Some(7 * 86400),
+                x if x.is_whitespace() => None,
+                '_' => None,
                 _ => {
                     return Err(Error::InvalidConfig(format!(
                         "Unexpected {} in duration",
                         c
                     )));
                 }
+            };
+            if let Some(unit) = unit {
+                let n = num.take().ok_or_else(|| {
+                    Error::InvalidConfig(format!("Expected a number before {} in duration", c))
+                })?;
+                ret = n
+                    .checked_mul(unit)
+                    .and_then(|secs| ret.checked_add(secs))
+                    .ok_or_else(too_large)?;
             }
         }
         if let Some(n) = num {
-            ret += std::time::Duration::from_secs(n);
+            ret = ret.checked_add(n).ok_or_else(too_large)?;
         }
-        Ok(ret)
+        Ok(std::time::Duration::from_secs(ret))
     })
     .transpose()
 }
@@ -539,7 +542,9 @@ pub fn parse_duration(
     fragment: &yaml::Yaml,
 ) -> Result<Option<std::time::Duration>, Error> {
     if let yaml::Yaml::Integer(i) = fragment {
-        Ok(Some(std::time::Duration::from_secs(*i as u64)))
+        let secs = u64::try_from(*i)
+            .map_err(|_| Error::InvalidConfig(format!("{} cannot be negative", name)))?;
+        Ok(Some(std::time::Duration::from_secs(secs)))
     } else {
         parse_string(name, fragment).and_then(str_duration)
     }
